@@ -405,7 +405,7 @@ def updateTours (nw : Network) (s : Schedule) (w : Work) (provider : Option Veh)
   pure { w1 with tours, dummyTours, costs, usage, forms, unserved }
 
 /-- one round of the `while let Some(path) = remaining_path` loop of `fit_path_into_tour` -/
-def fitLoop (nw : Network) : Nat → Option Tour → Tour → Option (List Nat) → List Nat → R (Option Tour × Tour × List Nat)
+def fitLoop (nw : Network) (checkPath : Bool) : Nat → Option Tour → Tour → Option (List Nat) → List Nat → R (Option Tour × Tour × List Nat)
   | 0, prov, recv, _, moved => pure (prov, recv, moved)
   | fuel + 1, prov, recv, remaining, moved =>
     match remaining with
@@ -428,14 +428,16 @@ def fitLoop (nw : Network) : Nat → Option Tour → Tour → Option (List Nat) 
       let rest := Tour.pathTrusted nw (path.drop (endPos + 1))
       let p ← unwrapO prov "new_tour_provider.as_ref().unwrap()"
       match Tour.remove nw p start segEnd with
-      | .error (.err _) => fitLoop nw fuel prov recv rest moved
+      | .error (.err _) => fitLoop nw checkPath fuel prov recv rest moved
       | .error e => .error e
-      | .ok (provCand, pathIns) => do
+      | .ok (provCand, pathIns) =>
+        -- (repaired, finding F18) a part of a dummy tour goes to a real vehicle only if it is a valid path
+        if checkPath && !(Tour.isChain nw pathIns) then fitLoop nw checkPath fuel prov recv rest moved else do
         match ← Tour.conflict nw true recv start segEnd with
-        | some _ => fitLoop nw fuel prov recv rest moved
+        | some _ => fitLoop nw checkPath fuel prov recv rest moved
         | none => do
           let (recv', _) ← Tour.insertPath nw true recv pathIns
-          fitLoop nw fuel provCand recv' rest (moved ++ nodeSeq)
+          fitLoop nw checkPath fuel provCand recv' rest (moved ++ nodeSeq)
 
 /-- `fit_reassign` -/
 def fitReassign (nw : Network) (s : Schedule) (p r : Veh) (a b : Nat) : R Schedule := do
@@ -443,7 +445,7 @@ def fitReassign (nw : Network) (s : Schedule) (p r : Veh) (a b : Nat) : R Schedu
   let pt ← unwrapO (s.tourOf? p) "tour_of(provider).unwrap()"
   let rt ← unwrapO (s.tourOf? r) "tour_of(receiver).unwrap()"
   let path ← Tour.subPath nw pt a b
-  let (newProv, newRecv, moved) ← fitLoop nw (path.length + 1) (some pt) rt (some path) []
+  let (newProv, newRecv, moved) ← fitLoop nw (s.isDummy p && s.isVehicle r) (path.length + 1) (some pt) rt (some path) []
   let w ← updateTours nw s (Work.ofSchedule s) (some p) newProv r newRecv moved
   let (trans, viol) ← updateTransitionsFast nw s w.vehicles w.tours [p, r] [] s.transitions s.violation
   pure { s with vehicles := w.vehicles, tours := w.tours, transitions := trans, formations := w.forms,
@@ -456,6 +458,8 @@ def overrideReassign (nw : Network) (s : Schedule) (p r : Veh) (a b : Nat) : R (
   let pt ← unwrapO (s.tourOf? p) "tour_of(provider).unwrap()"
   let rt ← unwrapO (s.tourOf? r) "tour_of(receiver).unwrap()"
   let (shrunk, path) ← Tour.remove nw pt a b
+  -- (repaired, finding F18) a slice of a dummy tour goes to a real vehicle only if it is a valid path
+  if s.isDummy p && s.isVehicle r && !(Tour.isChain nw path) then .error (.err "Not a valid Path") else
   let (newRecv, replaced) ← Tour.insertPath nw true rt path
   let w ← updateTours nw s (Work.ofSchedule s) (some p) shrunk r newRecv path
   let (w2, counter, newDummy) ← match replaced with
